@@ -587,7 +587,7 @@ func genSynthetic(t *rapid.T) *Case {
 func TestCheck(t *testing.T) {
 	r := report.Begin("C07")
 	defer r.Finish()
-	r.Rule("(a) synthetic registries of 1..300 validators drawn directly (sizes straddling SLOTS_PER_EPOCH*TARGET_COMMITTEE_SIZE*k, activation/exit epochs within ±2 of the current epoch, effective balances from 0 to MAX incl. thresholds, random randao mixes, any slot, any fork's state type, mainnet/minimal/custom presets) loaded into the library from reference-encoded bytes, a quarter of them followed by loading the same context object from a second state of the same epoch with another randao history; (b) every epoch boundary of generated chains with the live context. Every committee of previous/current/next epoch, every proposer of the current epoch, the next sync committee (members, indices, aggregate key) compared with refspec; plus the partition predicate. non-trivial = >=2 committees per slot or >=1 validator inactive in a queried epoch or a non-uniform effective-balance vector; distinct key = (preset family, active count, committees per slot, balance profile, fork)")
+	r.Rule("(a) synthetic registries of 1..300 validators drawn directly (sizes straddling SLOTS_PER_EPOCH*TARGET_COMMITTEE_SIZE*k, activation/exit epochs within ±2 of the current epoch, effective balances from 0 to MAX incl. thresholds, random randao mixes, any slot, any fork's state type, mainnet/minimal/custom presets) loaded into the library from reference-encoded bytes, a quarter of them followed by loading the same context object from a second state of the same epoch with another randao history; (b) every epoch boundary of generated chains with the live context; (c) active sets of 1…3 million on the mainnet preset through NewShufflingEpoch (committee bounds in math/big, members at sampled positions, partition). Every committee of previous/current/next epoch, every proposer of the current epoch, the next sync committee (members, indices, aggregate key) compared with refspec; plus the partition predicate. non-trivial = >=2 committees per slot or >=1 validator inactive in a queried epoch or a non-uniform effective-balance vector; distinct key = (preset family, active count, committees per slot, balance profile, fork)")
 	r.Assume("refspec is the spec (per-index compute_shuffled_index, no caches)", "synthetic states respect the registry invariants the spec maintains (activation <= exit, withdrawable after exit) and have >=1 validator active in the current and next epoch (an empty active set is known finding F-C02-05)")
 	replay := func(raw json.RawMessage) *report.Failure {
 		var probe struct {
@@ -600,6 +600,17 @@ func TestCheck(t *testing.T) {
 				return report.Failf("harness", "bad case: %v", err)
 			}
 			return runChain(r, &cc)
+		}
+		var kp struct {
+			Kind string `json:"kind"`
+		}
+		json.Unmarshal(raw, &kp)
+		if kp.Kind == "huge" {
+			var hc HugeCase
+			if err := json.Unmarshal(raw, &hc); err != nil {
+				return report.Failf("harness", "bad case: %v", err)
+			}
+			return runHuge(r, &hc)
 		}
 		var c Case
 		if err := json.Unmarshal(raw, &c); err != nil {
@@ -615,6 +626,13 @@ func TestCheck(t *testing.T) {
 	if !r.Search(t, "synthetic", 0, r.N(1500, 18000), func(rt *rapid.T) (any, *report.Failure) {
 		c := genSynthetic(rt)
 		return c, runSynthetic(r, c)
+	}) {
+		return
+	}
+	r.Mandatory("huge:active-x-committees>=2^32")
+	if !r.Search(t, "huge-active-sets", 102, r.N(16, 64), func(rt *rapid.T) (any, *report.Failure) {
+		c := genHuge(rt)
+		return c, runHuge(r, c)
 	}) {
 		return
 	}
